@@ -86,13 +86,28 @@ def features(rec):
     return (rec["shape"], tuple(rec["kinds"]), tuple(sorted(set(w for w in words if w in CMP or w in CONN))))
 
 
+def edited_topology():
+    """the same model topology reached through a history: a larger topology (one extra atom at index 0) is queried with selections
+    of every attribute family, then edited down to the model.  A selection denotes atoms of the topology AS IT IS NOW."""
+    from mdtraj.core import element as E
+    top = model_topology()
+    top.insert_atom("K", E.get_by_symbol("K"), next(iter(top.residues)), index=0)
+    for q in ("n_bonds 2", "n_bonds < 2", "name CA", "resid 1", "mass > 13", "protein", "index 3", "water and n_bonds 1", "backbone", "resname ALA", "chainid 1",
+              "element C", "segment_id A", "rescode G", "resSeq 5", "sidechain", "all"):
+        top.select(q)
+        eval(top.select_expression(q), {"topology": top, "re": re})
+    top.delete_atom_by_index(0)
+    return top
+
+
 def _init():
     global _top
-    _top = model_topology()
+    _top = (model_topology(), edited_topology())
     return _top
 
 
-def _replay(rec, top):
+def _replay(rec, tops):
+    top = tops[1] if rec.get("_edited") else tops[0]
     s = render(rec["toks"])
     exp = sorted(rec["sel"])
     if rec["shape"] == "BAD":
@@ -126,6 +141,9 @@ def run(ctx):
     st, bad = pool.run_tasks(lambda _: check_table(model_topology()), [0], workers=1, batch=1)[0]
     if st != "ok" or bad:
         ctx.machinery_failure("model topology does not match the specification's atom table: %s" % (bad,))
+    st, ed = pool.run_tasks(lambda _: [(a.name, a.index, a.residue.index) for a in edited_topology().atoms] == [(a.name, a.index, a.residue.index) for a in model_topology().atoms], [0], workers=1, batch=1)[0]
+    if st != "ok" or not ed:
+        ctx.machinery_failure("edited topology does not come back to the model topology: %s" % (ed,))
     r = ctx.tlc("Selection", "Selection_%s.cfg" % ("full" if ctx.thorough else "mid"), workers=16, timeout=3000,
                 cfg_text=CFG % dict(full="TRUE" if ctx.thorough else "FALSE"))
     recs = r.tr
@@ -138,6 +156,8 @@ def run(ctx):
         bads = [x for x in recs if x["shape"] == "BAD"]
         strat = features if ctx.thorough else (lambda x: (x["shape"], tuple(x["kinds"])))
         recs = stratified_sample([x for x in recs if x["shape"] != "BAD"], strat, budget, ctx.rng) + bads
+    for i, x in enumerate(recs):
+        x["_edited"] = (i % 3 == 1) and not ctx.replay or bool(x.get("_edited"))
     res = pool.run_tasks(_replay, recs, workers=16, timeout=120, batch=64, init=_init)
     nfail = 0
     for rec, (st, val) in zip(recs, res):
@@ -147,13 +167,13 @@ def run(ctx):
         if st != "ok":
             val = dict(expr=render(rec["toks"]), outcome=st, msg=str(val)[:200])
         f = features(rec)
-        ctx.discrepancy(None, "%r -> %s (got %s expected %s)" % (val["expr"], val["outcome"], val.get("got"), val.get("expected", sorted(rec["sel"]))),
+        ctx.discrepancy(None, "%r%s -> %s (got %s expected %s)" % (val["expr"], " [on the topology edited back to the model after earlier selections]" if rec.get("_edited") else "", val["outcome"], val.get("got"), val.get("expected", sorted(rec["sel"]))),
                         dict(rec=rec, observed=val), cls="%s: %s [%s]" % (val["outcome"], rec["shape"], ",".join(rec["kinds"])))
     samples = [dict(expr=render(x["toks"]), denotes=sorted(x["sel"])) for x in recs[:: max(1, len(recs) // 4)][:4]]
     cov = dict(traces_validated_against_impl=len(recs), replays_failing=nfail, expressions_emitted=n_emitted,
                malformed=sum(1 for x in recs if x["shape"] == "BAD"), samples=samples,
                explanation="every expression of the bounded grammar (all leaves in all keyword/operator/quote spellings, negated; two-leaf shapes with every connective "
                            "spelling; three-leaf precedence shapes; regular-expression leaves; malformed productions) is evaluated by Topology.select and by "
-                           "eval(select_expression) on the model topology and compared with the specification's denotation")
+                           "eval(select_expression) on the model topology (and, for a third of them, on a topology that reached the same content through insert_atom / selections / delete_atom_by_index) and compared with the specification's denotation")
     return ctx.finish(cov, "model_checking", ["model topology of 10 atoms (protein, water, ion; two chains/segments; repeated names and residue numbers)",
                                               "mass literals avoid exact float equality"])
